@@ -1247,6 +1247,30 @@ pub(crate) fn verify_mmr_proof<'a, T: Iterator<Item = &'a HeaderView>>(
         return Err(StatusCode::InvalidProof.with_context(errmsg));
     };
     let parent_chain_root = last_header.parent_chain_root();
+    let headers = headers.collect::<Vec<_>>();
+    // The MMR library and the merge function do unchecked arithmetic on block numbers and
+    // total difficulties: make sure that the peer supplied numbers can not overflow.
+    {
+        const BLOCK_NUMBER_LIMIT: BlockNumber = 1 << 62;
+        let end_number: BlockNumber = parent_chain_root.end_number().unpack();
+        let is_numbers_ok = end_number < BLOCK_NUMBER_LIMIT
+            && headers
+                .iter()
+                .all(|header| header.number() < BLOCK_NUMBER_LIMIT)
+            && raw_proof.iter().all(|header_digest| {
+                Unpack::<BlockNumber>::unpack(&header_digest.end_number()) < BLOCK_NUMBER_LIMIT
+            });
+        let is_total_difficulty_ok = raw_proof
+            .iter()
+            .map(|header_digest| Unpack::<U256>::unpack(&header_digest.total_difficulty()))
+            .chain(headers.iter().map(|header| header.difficulty()))
+            .try_fold(U256::zero(), |total, item| total.checked_add(&item))
+            .is_some();
+        if !is_numbers_ok || !is_total_difficulty_ok {
+            let errmsg = "failed to verify the proof since numbers are overflow";
+            return Err(StatusCode::InvalidProof.with_context(errmsg));
+        }
+    }
     let proof: MMRProof = {
         let mmr_size = leaf_index_to_mmr_size(parent_chain_root.end_number().unpack());
         let proof = raw_proof
@@ -1258,6 +1282,7 @@ pub(crate) fn verify_mmr_proof<'a, T: Iterator<Item = &'a HeaderView>>(
 
     let digests_with_positions = {
         let res = headers
+            .into_iter()
             .map(|header| {
                 let index = header.number();
                 let position = leaf_index_to_pos(index);
